@@ -8,7 +8,10 @@ use std::panic;
 
 use storage_layout_extractor::{
     disassembly::InstructionStream,
-    vm::{Config, VM},
+    vm::{
+        value::{known::KnownWord, Provenance, RuntimeBoxedVal, RSV, RSVD},
+        Config, VM,
+    },
     watchdog::LazyWatchdog,
 };
 
@@ -134,6 +137,90 @@ fn disassemble_roundtrip(p: &str) -> String {
     }
 }
 
+fn str_param(json: &str, key: &str) -> Option<String> {
+    let k = format!("\"{key}\"");
+    let i = json.find(&k)?;
+    let rest = &json[i + k.len()..];
+    let rest = rest.trim_start().strip_prefix(':')?.trim_start().strip_prefix('"')?;
+    let end = rest.find('"')?;
+    Some(rest[..end].to_string())
+}
+
+/// Fold a node of the named variant whose FIRST operand is an opaque leaf and whose second (if any)
+/// is the constant 3: the result must be the same variant with the same operands in the same fields.
+fn fold_variant(p: &str) -> String {
+    let name = str_param(p, "name").unwrap_or_default();
+    let leaf: RuntimeBoxedVal = RSV::new_value(7, Provenance::Synthetic);
+    let k: RuntimeBoxedVal = RSV::new_known_value(8, KnownWord::from_le(3u8), Provenance::Synthetic, None);
+    let (a, b) = (leaf.clone(), k.clone());
+    macro_rules! two {
+        ($v:ident, $f1:ident, $f2:ident) => {{
+            let node = RSV::new_synthetic(0, RSVD::$v { $f1: a.clone(), $f2: b.clone() });
+            let folded = node.constant_fold();
+            let same = matches!(folded.data(), RSVD::$v { $f1: x, $f2: y } if *x == a && *y == b);
+            // and with the operands swapped (constant first, opaque second)
+            let node2 = RSV::new_synthetic(0, RSVD::$v { $f1: b.clone(), $f2: a.clone() });
+            let folded2 = node2.constant_fold();
+            let same2 = matches!(folded2.data(), RSVD::$v { $f1: x, $f2: y } if *x == b && *y == a);
+            (same && same2, format!("{:?}", std::mem::discriminant(folded.data())))
+        }};
+    }
+    macro_rules! one {
+        ($v:ident, $f1:ident) => {{
+            let node = RSV::new_synthetic(0, RSVD::$v { $f1: a.clone() });
+            let folded = node.constant_fold();
+            let same = matches!(folded.data(), RSVD::$v { $f1: x } if *x == a);
+            (same, format!("{:?}", std::mem::discriminant(folded.data())))
+        }};
+    }
+    let (same, got) = match name.as_str() {
+        "Add" => two!(Add, left, right),
+        "Multiply" => two!(Multiply, left, right),
+        "Subtract" => two!(Subtract, left, right),
+        "Divide" => two!(Divide, dividend, divisor),
+        "SignedDivide" => two!(SignedDivide, dividend, divisor),
+        "Modulo" => two!(Modulo, dividend, divisor),
+        "SignedModulo" => two!(SignedModulo, dividend, divisor),
+        "Exp" => two!(Exp, value, exponent),
+        "LessThan" => two!(LessThan, left, right),
+        "GreaterThan" => two!(GreaterThan, left, right),
+        "SignedLessThan" => two!(SignedLessThan, left, right),
+        "SignedGreaterThan" => two!(SignedGreaterThan, left, right),
+        "Equals" => two!(Equals, left, right),
+        "IsZero" => one!(IsZero, number),
+        "And" => two!(And, left, right),
+        "Or" => two!(Or, left, right),
+        "Xor" => two!(Xor, left, right),
+        "Not" => one!(Not, value),
+        "LeftShift" => two!(LeftShift, shift, value),
+        "RightShift" => two!(RightShift, shift, value),
+        "ArithmeticRightShift" => two!(ArithmeticRightShift, shift, value),
+        _ => (true, "unknown variant".to_string()),
+    };
+    format!("{{\"violates\": {}, \"variant\": \"{}\", \"folded_discriminant\": \"{}\"}}", !same, name, got)
+}
+
+fn count_nodes(v: &RuntimeBoxedVal) -> usize {
+    1 + v.children().iter().map(count_nodes).sum::<usize>()
+}
+
+/// Build Add(Add(leaf, 1), 1) through the limited constructor: the reported size must be the node count.
+fn culled_size(p: &str) -> String {
+    let limit = param(p, "limit").unwrap_or(2) as usize;
+    let leaf = RSV::new_value(0, Provenance::Synthetic);
+    let one = RSV::new_known_value(0, KnownWord::from_le(1u8), Provenance::Synthetic, None);
+    let inner = RSV::new(1, RSVD::Add { left: leaf, right: one.clone() }, Provenance::Execution, Some(limit));
+    let outer = RSV::new(2, RSVD::Add { left: inner.clone(), right: one }, Provenance::Execution, Some(limit));
+    let mut bad = false;
+    let mut obs = String::new();
+    for (name, v) in [("inner", &inner), ("outer", &outer)] {
+        let n = count_nodes(v);
+        obs.push_str(&format!("\"{name}_size\": {}, \"{name}_nodes\": {}, ", v.size(), n));
+        bad |= v.size() != n || n > limit;
+    }
+    format!("{{\"violates\": {}, {}\"limit\": {}}}", bad, obs, limit)
+}
+
 fn main() {
     let args: Vec<String> = std::env::args().collect();
     if args.len() < 3 {
@@ -147,6 +234,8 @@ fn main() {
         "fork_first_visit" => fork_first_visit(&p),
         "jump_target_bits" => jump_target_bits(&p),
         "halting_opcode" => halting_opcode(&p),
+        "culled_size" => culled_size(&p),
+        "fold_variant" => fold_variant(&p),
         "disassemble_roundtrip" => disassemble_roundtrip(&p),
         "permissive_bad_jump" => permissive_bad_jump(&p),
         _ => "{\"violates\": false, \"outcome\": \"unknown scenario\"}".to_string(),
